@@ -9,7 +9,7 @@ Open Scope nat_scope.
 Lemma firstn_skipn_eq {A} n (a b : list A) : firstn n a = firstn n b -> skipn n a = skipn n b -> a = b.
 Proof. intros H1 H2. rewrite <- (firstn_skipn n a), <- (firstn_skipn n b). congruence. Qed.
 
-Lemma read_len_bounds buf f want : 1 <= buf -> f <> [] ->
+Lemma read_len_bounds buf (f : bytes) want : 1 <= buf -> f <> [] ->
   let n := read_len buf (length (firstn buf f)) want in 1 <= n <= length f.
 Proof.
   intros Hb Hf. destruct buf as [|b']; [lia|]. cbn [read_len].
